@@ -162,6 +162,7 @@ class Interp:
         self.num_widths = {}          # repr(Rat) -> printed width of that number under %d / %.1f / str()
         self.cuts = []                # (node, text) operations that cut through a symbolic field
         self.hazards = []             # (node, text) substring tests whose outcome depends on user text
+        self.dtype_hazards = []      # stores of real values into buffers typed like a caller's container
         self.files = {}               # file name -> list of abstract lines
         self.opaque_classes = {}      # class qual -> handler(interp, frame, args, kwargs)
         self.extrema = {}             # MAX{..}/MIN{..} atom -> list of argument values
@@ -925,6 +926,9 @@ class Frame:
                 i = self.index(idx, len(base), target)
                 if self.in_vec_loop:
                     raise Unsupported('indexed store inside vector loop', target, self.module.relpath)
+                if getattr(base, 'dtype', None) == 'caller' and not (isinstance(v, Rat) and v.is_const()
+                                                                      and v.const_value().denominator == 1):
+                    I.dtype_hazards.append((target, self.module.relpath))
                 base.items[i] = v
                 return
             if isinstance(base, DictV):
@@ -2021,12 +2025,24 @@ def _np_array(I, fr, args, kwargs, n):
     return v
 
 
+FLOAT_DTYPES = ('np.double', 'np.float64', 'np.float_', 'float', 'double', 'float64', 'd', 'f8')
+
+
 def _np_like(val):
     def h(I, fr, args, kwargs, n):
         v = _arg(args, kwargs, 0, 'a')
         if isinstance(v, ListV):
             r = ListV([h(I, fr, [x], {}, n) for x in v.items])
             r.is_array = True
+            # element type of the new buffer: the one asked for, else that of the prototype - which for a
+            # container supplied by the caller may be an integer type
+            dt = _arg(args, kwargs, 1, 'dtype', None)
+            if isinstance(dt, Builtin):
+                dt = dt.name
+            if dt is not None:
+                r.dtype = 'float' if dt in FLOAT_DTYPES else 'other:%s' % (dt,)
+            else:
+                r.dtype = getattr(v, 'dtype', 'caller')
             return r
         if isinstance(v, Elem):
             return Elem(C(val))
